@@ -5,6 +5,7 @@ CONSTANTS
   Shapes <- ShapesNone
   Types = {}
   RasDims <- RDimsA
+  ScaleSets <- ScalesAll
   MaxObjs = 6
   MaxOps = 4
   Mix = TRUE
